@@ -34,7 +34,7 @@ META = {
 HARNESS = os.path.join(vlib.VERIF, "harness", "bigint_drv.c")
 NPROC = max(2, min(10, vlib.NCPU - 4))
 
-FIELDS_Z = ("a", "b", "c", "e", "v")
+FIELDS_Z = ("a", "b", "c", "e", "v")      # operand fields of an event that hold integers
 
 
 def build_harnesses(b):
@@ -365,19 +365,20 @@ PATH_CFGS = ["BigIntImplR4Paths", "BigIntImplR8Paths"]
 COMMON_LABELS = ("d1", "ujeqv1", "rhatov", "addback")
 
 
-def run_models(chk, tier, workers):
+def run_models(tier, workers):
     """(A) BigIntImpl refines BigZ, exhaustively at R = 4 and R = 8; then the path export.
-    Returns the exported path patterns."""
+    Runs in a helper thread: returns ([(cfg, TlcResult)], exported path patterns); the caller
+    books the results."""
     pats = []
+    runs = []
     for cfg in MODEL_CFGS[tier]:
         r = vlib.tlc("BigIntImpl", cfg, workers=workers, timeout=2400, xmx="3g")
-        chk.add_tlc(cfg, r)
-        if r.violated:
-            chk.violation("algorithm model of bigint.c does not refine the integers: %s violated in %s" % (r.violated, cfg),
-                          r.trace_text, key={"model": "BigIntImpl", "cfg": cfg, "inv": r.violated})
+        runs.append((cfg, r))
     for cfg in PATH_CFGS:
         r = vlib.tlc("BigIntImpl", cfg, workers=workers, timeout=1200, xmx="3g")
-        chk.add_tlc(cfg, r)
+        runs.append((cfg, r))
+        if r.error:
+            raise vlib.MachineryError("TLC run %s failed: %s" % (cfg, r.error))
         n0 = len(pats)
         for p in r.printed:
             try:
@@ -393,7 +394,7 @@ def run_models(chk, tier, workers):
             "ripple", "borrowripple", "shrinks", "swap", "topzero", "res.imm", "res.sto", "q.sto", "r.sto", "nn", "np", "pn", "pp"}
     if need - labels:
         raise vlib.MachineryError("algorithm model never reached the paths %s" % sorted(need - labels))
-    return pats
+    return runs, pats
 
 
 def run(chk, tier):
@@ -417,11 +418,11 @@ def run(chk, tier):
     fut_drift = None
     fut_oracle = pool.submit(lambda: vlib.tlc("BigZCheck", "BigZCheckQuick" if quick else "BigZCheck",
                                                workers=3 if quick else 6, timeout=2400, xmx="2g"))
-    fut_model = pool.submit(run_models, chk, tier, 4 if quick else 6)
+    fut_model = pool.submit(run_models, tier, 4 if quick else 6)
 
     rounds = 1 if quick else int(os.environ.get("VERIF_C11_ROUNDS", "4"))
     all_fails = []
-    t_budget = time.time() + (100 if quick else 1100)
+    t_budget = time.time() + (100 if quick else 800)
     for rnd in range(rounds):
         wls = {rx: bigint_ops.generate(rx, tier, chk.seed + 7919 * rnd) for rx in (32, 7)}
         if rnd == 0:
@@ -440,7 +441,12 @@ def run(chk, tier):
             break
 
     # (B): the model's path patterns instantiated at the real radices
-    pats = fut_model.result()
+    runs, pats = fut_model.result()
+    for cfg, r in runs:
+        chk.add_tlc(cfg, r)
+        if r.violated:
+            chk.violation("algorithm model of bigint.c does not refine the integers: %s violated in %s" % (r.violated, cfg),
+                          r.trace_text, key={"model": "BigIntImpl", "cfg": cfg, "inv": r.violated})
     wls = {rx: bigint_ops.from_patterns(pats, rx, chk.seed, tier) for rx in (32, 7)}
     chk.extra["path_patterns"] = {"exported": len(pats), "distinct_paths": len(set((p["op"], tuple(sorted(p["path"]))) for p in pats))}
     chk.sample({"path_pattern": pats[0]})
